@@ -117,6 +117,20 @@ class C18(AstKindProp):
                     if kind == "function":
                         opts.update({"inline_types": True, "indent_level": r.choice([0, 1, 2])})
                     self.cases.append({"width": w, "kind": kind, "ir": irutil.ir_to_json(irj), "opts": opts, "sweep": off})
+        # ... and the argparse route with prose that already carries its default sentence (what parse.docstring hands on):
+        # the sentence is taken out of the help text, wherever the line would have been broken
+        for w in sweep_widths:
+            weff = w or 100
+            for off in range(0, 20):
+                r = run.sub_rng("argsweep", w, off)
+                names = r.sample(G.NAMES, 2)
+                params = []
+                for k, nm in enumerate(names):
+                    typ = ["int", "str"][k]
+                    dv = {"int": 32, "str": "mnist"}[typ]
+                    params.append((nm, {"typ": typ, "doc": exact_prose(r, max(3, weff - off - 2 * k)).rstrip(".") + ". Defaults to %s" % dv, "default": dv}))
+                irj = {"doc": "Summary line.", "params": params, "returns": None}
+                self.cases.append({"width": w, "kind": "argparse", "ir": irutil.ir_to_json(irj), "opts": {"emit_default_doc": r.random() < 0.5}, "sweep": 300 + off})
         # deterministic sweeps of two more break situations: (a) one unbreakable token whose length slides up to the
         # width (it must not be cut), (b) a free-standing dash ("lo - hi") sliding across the end of a wrapped line
         for w in sweep_widths:
@@ -244,12 +258,28 @@ class C18(AstKindProp):
 
         if c["kind"] == "function" and differs and re.search(r"Defaults\s*\n\s*to\b", wt):
             return "C18-D20-announcement-phrase-split-by-the-wrap"
-        if c["kind"] in ("rest", "function") and differs and all(": typ " in d for d in fl.get("diffs", [])):
+        if c["kind"] in ("rest", "function") and differs and all(": typ " in d for d in fl.get("diffs", [])) and all(_only_line_break_kept(d) for d in fl.get("diffs", [])):
             for line in wt.split("\n"):
                 ls = line.strip()
                 if (ls.startswith(":type ") or ls.startswith(":rtype:")) and not ls.endswith("```"):
                     return "C18-D20-wrapped-type-line-keeps-the-line-break"
         return None
+
+
+def _only_line_break_kept(d):
+    """the recorded defect exactly: the wrapped type is the unwrapped one with a line break and its indentation where one
+    blank was (nothing dropped, nothing merged)"""
+    import ast
+    import re
+
+    m = re.match(r"^[^:]+: typ (.*) -> (.*)$", d, re.S)
+    if not m:
+        return False
+    try:
+        a, b = ast.literal_eval(m.group(1)), ast.literal_eval(m.group(2))
+    except Exception:
+        return False
+    return isinstance(a, str) and isinstance(b, str) and "\n" in b and re.sub(r"[ \t]*\n[ \t]*", " ", b) == a
 
 
 PROP = C18()
